@@ -12,6 +12,7 @@ CONSTANTS
     MaxReaps = 100000000
     ResumeScripts = {"noop"}
     OpenScripts = {"open"}
+    Routes = {"unary", "pinit", "pcont", "xturn"}
     Toks = {"own", "bad"}
     Lags = {0}
     AadBinds = TRUE
